@@ -109,7 +109,11 @@ def job_kernels_ub(tier, seed):
          ('StepAddress', '@k_step', [ip, u32, s16, t16, f0], [z3.ULT(u32, 8), z3.ULT(t16, 8), bit(f0)]),
          ('RnAndModify', '@k_rnmod', [ip, u32, t16, f0], [z3.ULT(u32, 8), z3.ULT(t16, 8), bit(f0)]),
          ('RnAddress', '@k_rnaddr', [ip, u32, z3.BitVec('kv32', 32)], [z3.ULT(u32, 8)]),
-         ('OffsetAddress', '@k_offset', [ip, u32, s16, t16, f0], [z3.ULT(u32, 8), z3.ULT(t16, 4), bit(f0)])]
+         ('OffsetAddress', '@k_offset', [ip, u32, s16, t16, f0], [z3.ULT(u32, 8), z3.ULT(t16, 4), bit(f0)]),
+         ('RegToBus16', '@k_reg2bus', [ip, s16, f0], []),
+         ('RegFromBus16', '@k_bus2reg', [ip, s16, t16], []),
+         ('PushPC', '@k_pushpc', [ip], []), ('PopPC', '@k_poppc', [ip], []),
+         ('ContextStore', '@k_ctxs', [ip], []), ('ContextRestore', '@k_ctxr', [ip], [])]
     for name, fn, args, pre in K:
         st = st0.fork()
         ex.exits, ex.oblig = [], []
